@@ -9,7 +9,7 @@
 //!   processed event, which order requests have to be sent / failed / refused and what is tracked afterwards.
 #![allow(dead_code)]
 use barter::{
-    EngineEvent, Timed,
+    EngineEvent,
     engine::{
         Engine, EngineOutput,
         action::{ActionOutput, generate_algo_orders::GenerateAlgoOrdersOutput, send_requests::{SendCancelsAndOpensOutput, SendRequestsOutput}},
